@@ -163,6 +163,9 @@ func checkC07(tier string) *Report {
 		w0.OpRecv("T(internal,fee)", TransferSpec{"channel-0", denomUSDC, "10000", w0.Orb.String(), w0.FwdInternal(w0.Bob), []FeeSpec{{To: w0.Fee1.String(), Bps: 100}}}.Pkt()),
 		OpEnv("ftf-pause"), OpEnv("ftf-blacklist-bob")}
 	depth := 2
+	if full {
+		depth = 3
+	}
 	pkts := w0.c07Packets(full)
 	var use []Pkt
 	skipped := 0
